@@ -112,4 +112,98 @@ def lfinish (s : LS) : Option (List (List (List Char))) :=
     outside the supported fragment -/
 def parse (l : List Char) : Option (List (List (List Char))) := lfinish (l.foldl lstep ls0)
 
+/-! ### Environment overrides (`env = Some(_)`): `NAME=value ` words in front of the command
+
+  `to_cmdline_lossy` prints, in the order of the builder's environment vector, every pair that differs
+  from the parent's current environment as `esc(k)=esc(v) `, then every current variable that the vector
+  lacks as `esc(k)= `, then the command.  Shell side: a word that *starts* with an unquoted name
+  (`[A-Za-z_][A-Za-z0-9_]*`) followed by an unquoted `=` and that stands before the command name is an
+  assignment; its value is the rest of the word, lexed by the same quoting rules. -/
+
+def lookupEnv (cur : List (List Char × List Char)) (k : List Char) : Option (List Char) :=
+  match cur with
+  | [] => none
+  | (k', v) :: rest => if k' = k then some v else lookupEnv rest k
+
+def hasKey (env : List (List Char × List Char)) (k : List Char) : Bool :=
+  match env with
+  | [] => false
+  | (k', _) :: rest => k' = k || hasKey rest k
+
+/-- first loop of `to_cmdline_lossy`: pairs of the command's vector that the parent does not already have -/
+def envSets (cur cmdEnv : List (List Char × List Char)) : List (List Char × List Char) :=
+  cmdEnv.filter (fun kv => lookupEnv cur kv.1 != some kv.2)
+
+/-- second loop: current variables missing from the command's vector -/
+def envUnsets (cur cmdEnv : List (List Char × List Char)) : List (List Char) :=
+  (cur.filter (fun kv => !hasKey cmdEnv kv.1)).map (·.1)
+
+def assignText (kv : List Char × List Char) : List Char :=
+  displayEscape kv.1 ++ '=' :: displayEscape kv.2 ++ [' ']
+
+def unsetText (k : List Char) : List Char := displayEscape k ++ ['=', ' ']
+
+def envPrefix (sets : List (List Char × List Char)) (unsets : List (List Char)) : List Char :=
+  (sets.map assignText).flatten ++ (unsets.map unsetText).flatten
+
+/-- `to_cmdline_lossy` with `env = Some(cmdEnv)` in a parent whose environment is `cur` -/
+def toCmdlineEnv (cur cmdEnv : List (List Char × List Char)) (argv : List (List Char)) : List Char :=
+  envPrefix (envSets cur cmdEnv) (envUnsets cur cmdEnv) ++ toCmdline argv
+
+def identStart (c : Char) : Bool := c == '_' || ('a' ≤ c && c ≤ 'z') || ('A' ≤ c && c ≤ 'Z')
+def identChar (c : Char) : Bool := identStart c || ('0' ≤ c && c ≤ '9')
+
+/-- a shell *name* -/
+def isIdent : List Char → Bool
+  | [] => false
+  | c :: cs => identStart c && cs.all identChar
+
+/-- the rest of a name and what follows its `=` -/
+def takeAssignTail : List Char → List Char → Option (List Char × List Char)
+  | _, [] => none
+  | acc, c :: cs => if c = '=' then some (acc, cs) else if identChar c then takeAssignTail (acc ++ [c]) cs else none
+
+/-- `some (name, rest)` when the text starts with an unquoted name followed by `=` -/
+def takeAssign : List Char → Option (List Char × List Char)
+  | [] => none
+  | c :: cs => if identStart c then takeAssignTail [c] cs else none
+
+/-- the value of an assignment: the rest of the word, up to and including the first unquoted blank -/
+def valWord : Mode → List Char → List Char → Option (List Char × List Char)
+  | .plain, [], acc => some (acc, [])
+  | .squote, [], _ => none
+  | .bslash, [], _ => none
+  | .squote, c :: cs, acc => if c = '\'' then valWord .plain cs acc else valWord .squote cs (acc ++ [c])
+  | .bslash, c :: cs, acc => valWord .plain cs (acc ++ [c])
+  | .plain, c :: cs, acc =>
+    if c = '\'' then valWord .squote cs acc
+    else if c = '\\' then valWord .bslash cs acc
+    else if c = ' ' || c = '\t' then some (acc, cs)
+    else if niceChar c then valWord .plain cs (acc ++ [c])
+    else none
+
+/-- leading assignment words, in order, and the text after them (fuel: at most one per character) -/
+def stripAssigns : Nat → List Char → Option (List (List Char × List Char) × List Char)
+  | 0, l => some ([], l)
+  | n + 1, l =>
+    match takeAssign l with
+    | none => some ([], l)
+    | some (name, rest) =>
+      match valWord .plain rest [] with
+      | none => none
+      | some (v, rest') =>
+        match stripAssigns n rest' with
+        | none => none
+        | some (as, r) => some ((name, v) :: as, r)
+
+/-- what `sh` does with a simple command (or pipeline) that may start with assignments: the assignments
+    in order, and the commands it runs -/
+def parseWithEnv (l : List Char) : Option (List (List Char × List Char) × List (List (List Char))) :=
+  match stripAssigns l.length l with
+  | none => none
+  | some (as, r) =>
+    match parse r with
+    | none => none
+    | some cmds => some (as, cmds)
+
 end Sh
